@@ -118,6 +118,21 @@ PROPS = {
             "is re-proved by `decide` for the wiring regenerated from the source on every run",
         ],
     },
+    "C08": {
+        "modules": ["Hannibal.Props.C08", "Hannibal.Props.C08Current"],
+        "theorems": ["Hannibal.C08_holds", "Hannibal.C08_current", "Hannibal.wellWired08_current"],
+        "driver": "reg08",
+        "cases": {"quick": {"C08": 2000}, "thorough": {"C08": 40000}},
+        "assumptions": [
+            "atomicity: everything a task does inside one poll is atomic w.r.t. other tasks (single-thread executor)",
+            "every registry operation holds the RwLock for its whole check-then-act (one effect step per operation; "
+            "from_registry_and_spawn keeps the write lock until it returns): validated by acceptance of real "
+            "histories - a history with two overlapping effects is rejected by the model",
+            "an instance counts as terminated from the executor-level end of its task (tdone / taskpanic / cancel)",
+            "try_from_registry may return None while a spawning lookup holds the write lock (try_read)",
+            "setup() is a lookup whose result is discarded; Service::from_registry for brokers goes through the same code",
+        ],
+    },
     "C10": {
         "modules": ["Hannibal.Props.C10", "Hannibal.Props.C10Current"],
         "theorems": ["Hannibal.C10_holds", "Hannibal.C10_current"],
